@@ -403,8 +403,9 @@ def visible_copy(callee):
     return visible(callee)
 
 
-def build_system_copy(rt_prog, drv_prog, nworkers, budget, initial):
-    """the real CopyTask loop of minor.rs; LOCAL_MAXIMUM is scaled down to 1 so that the path
+def build_system_copy(rt_prog, drv_prog, nworkers, budget, initial, local_max=0):
+    """the real CopyTask loop of minor.rs; LOCAL_MAXIMUM (64) is scaled down to `local_max` (0: every item goes
+    to the stealable deque followed by wake_up; 1: the first item stays local) so that the path
     `worker.push(item); terminator.wake_up()` of push_item is reachable within the bound"""
     import re as _re
     from ..mir.structs import Layouts
@@ -438,7 +439,7 @@ def build_system_copy(rt_prog, drv_prog, nworkers, budget, initial):
     for need in ("CopyTask::trace_gray_objects", "CopyTask::push_item", "CopyTask::evacuate_object", "Object::visit_reference_fields"):
         if rt_prog.find(need) is None:
             raise Inconclusive("%s not found in the MIR dump" % need)
-    sysm.const_overrides = {"LOCAL_MAXIMUM": Int(1, "usize")}
+    sysm.const_overrides = {"LOCAL_MAXIMUM": Int(local_max, "usize")}
     worker = drv_prog.find("drv_c12_copy_worker")
     if worker is None:
         raise Inconclusive("driver drv_c12_copy_worker missing")
@@ -512,7 +513,10 @@ def svar(sysm, tag, idx):
 def run_config(rt, drv, N, budget, initial, K, tmo, deadline, qjobs=1, variant="driver"):
     """returns dict with verdicts; raises Inconclusive"""
     t0 = time.time()
-    sysm = {"marking": build_system_marking, "copy": build_system_copy}.get(variant, build_system)(rt, drv, N, budget, initial)
+    if variant == "copy1":
+        sysm = build_system_copy(rt, drv, N, budget, initial, local_max=1)
+    else:
+        sysm = {"marking": build_system_marking, "copy": build_system_copy}.get(variant, build_system)(rt, drv, N, budget, initial)
     sysm.build(deadline)
     nn = sum(len(n) for n, e in sysm.cfa)
     ne = sum(len(e) for n, e in sysm.cfa)
@@ -552,7 +556,7 @@ CONFIGS = {
     "quick": [(2, 1, 1, 52, "driver"), (2, 1, 1, 52, "marking"), (2, 1, 1, 52, "copy"), (2, 2, 1, 40, "driver")],
     "thorough": [(2, 1, 1, 52, "driver"), (2, 1, 1, 52, "marking"), (2, 2, 1, 75, "driver"), (2, 2, 1, 75, "marking"),
                  (2, 3, 1, 95, "driver"), (3, 1, 1, 72, "driver"), (3, 1, 1, 72, "marking"), (3, 2, 1, 85, "driver"),
-                 (2, 1, 1, 52, "copy"), (2, 2, 1, 75, "copy")],
+                 (2, 1, 1, 52, "copy"), (2, 2, 1, 75, "copy1")],
 }
 
 
